@@ -295,8 +295,8 @@ type runner struct {
 	maxWait  time.Duration
 	settle   time.Duration
 	timeouts int
-	dlBase   time.Duration // deadline of a caller that will be expired = now + dlBase + dlStep * (steps until its Expire)
-	dlStep   time.Duration
+	dlBase   time.Duration // deadline of a caller that will be expired = script start + dlBase + dlStep * (index of its Expire step):
+	dlStep   time.Duration // deadlines are ordered like the Expire steps whatever the real pace
 	tainted  bool // a deadline passed before the script reached its Expire step: the run does not count
 }
 
@@ -429,6 +429,7 @@ func (rn *runner) run(s *script) (snaps []snap, panicked bool) {
 		}
 	}
 	deadlines := map[int]time.Time{}
+	t0 := time.Now()
 	// ctxOf(t, i): the context of caller t, created at step i if it does not exist yet
 	ctxOf := func(t, i int) *cctx {
 		if c, ok := ctxs[t]; ok {
@@ -442,7 +443,7 @@ func (rn *runner) run(s *script) (snaps []snap, panicked bool) {
 		case expires && ei == i && (!arrives || ai > i): // deadline already passed when the call begins
 			ctx, cancel = context.WithDeadline(context.Background(), time.Now().Add(-time.Second))
 		case expires && arrives && ai == i && ei > i: // real deadline, reached at the Expire step
-			d := time.Now().Add(rn.dlBase + time.Duration(ei-i)*rn.dlStep)
+			d := t0.Add(rn.dlBase + time.Duration(ei)*rn.dlStep)
 			deadlines[t] = d
 			ctx, cancel = context.WithDeadline(context.Background(), d)
 		default:
@@ -1000,7 +1001,7 @@ func main() {
 	pool := mkPool()
 	g := &gen{r: r, pool: pool}
 	maxWait := 300 * time.Millisecond
-	reruns, unstable, timeouts := 0, 0, 0
+	reruns, unstable, timeouts, droppedTaint := 0, 0, 0, 0
 
 	for i := 0; i < n; i++ {
 		var s *script
@@ -1018,14 +1019,14 @@ func main() {
 		// a deadline ran out before its Expire step) is re-run with longer waits and longer
 		// deadlines (DESIGN App. C); the last observation counts
 		runBoth := func(mw, settle, dl time.Duration) (a, b []snap, pa, pb, tainted bool) {
-			r1 := &runner{pool: pool, maxWait: mw, settle: settle, dlBase: dl, dlStep: dl / 8}
+			r1 := &runner{pool: pool, maxWait: mw, settle: settle, dlBase: dl, dlStep: dl / 2}
 			a, pa = r1.run(s)
-			r2 := &runner{pool: pool, maxWait: mw, settle: settle + 300*time.Microsecond, dlBase: dl, dlStep: dl / 8}
+			r2 := &runner{pool: pool, maxWait: mw, settle: settle + 300*time.Microsecond, dlBase: dl, dlStep: dl / 2}
 			b, pb = r2.run(s)
 			timeouts += r1.timeouts + r2.timeouts
 			return a, b, pa, pb, r1.tainted || r2.tainted
 		}
-		dl := 25 * time.Millisecond
+		dl := 12 * time.Millisecond
 		snaps, snaps2, pan, pan2, tainted := runBoth(maxWait, 0, dl)
 		for k := 1; k <= 3 && (tainted || pan != pan2 || !reflect.DeepEqual(snaps, snaps2)); k++ {
 			reruns++
@@ -1034,6 +1035,11 @@ func main() {
 			}
 			dl *= 4
 			snaps, snaps2, pan, pan2, tainted = runBoth(maxWait*10, time.Duration(k)*3*time.Millisecond, dl)
+		}
+		if tainted { // still no run in which every deadline outlived the steps before its Expire: not an observation
+			droppedTaint++
+			w.Add(emit.Case{Input: "(Script false [])", Observed: "(OScript [])", Tags: []string{"dropped=deadline_before_expire_step"}})
+			continue
 		}
 		human := map[string]any{"skip": s.skip, "snapshots": snaps2}
 		var hs []string
@@ -1083,6 +1089,7 @@ func main() {
 			"the rest random phases over a timeline of rotating key sets with valid/future/older/unknown-kid/kid-less/wrong-key tokens and good/5xx/5xx-with-JWKS/bad-JSON/junk-only/empty/transport-error answers. " +
 			"Observed = snapshot after every step at quiescence. non-trivial = at least one caller arrived (path != 0); distinct = distinct (input, observed) terms.",
 		Notes: notes,
-		Extra: map[string]any{"reruns_after_disagreeing_observations": reruns, "unstable_scripts": unstable, "quiescence_timeouts": timeouts},
+		Extra: map[string]any{"reruns_after_disagreeing_observations": reruns, "unstable_scripts": unstable, "quiescence_timeouts": timeouts,
+			"dropped_deadline_before_expire_step": droppedTaint},
 	}))
 }
